@@ -316,6 +316,77 @@ theorem queue_exactly_once (init : DQ α) (ops : List (QOp α)) (h0 : init.start
   · intro j r hj; exact h.pend j r (h.cols ▸ hj)
   · intro n r hn; exact h.far n r (by rw [h.cols]; exact hn)
 
+/-! ### Totals: an insertion is never lost, a read-and-advance removes exactly what it returns -/
+
+/-- total amount of reaction `r` waiting in the queue (all logical slots). -/
+def totalPending (q : DQ α) (r : Nat) : α := ((List.range q.numCols).map (fun j => q.pending j r)).sum
+
+private theorem sum_indicator (n k : Nat) (a : α) (hk : k < n) :
+    ((List.range n).map (fun j => if j = k then a else 0)).sum = a := by
+  induction n with
+  | zero => omega
+  | succ n ih =>
+    rw [List.range_succ, List.map_append, List.sum_append]
+    by_cases h : k = n
+    · subst h
+      have : ((List.range k).map (fun j => if j = k then a else (0 : α))) = (List.range k).map (fun _ => (0 : α)) := by
+        apply List.map_congr_left
+        intro j hj
+        have : j ≠ k := by have := List.mem_range.mp hj; omega
+        simp [this]
+      rw [this]; simp
+    · have hk' : k < n := by omega
+      rw [ih hk']
+      have : n ≠ k := fun e => h e.symm
+      simp [this]
+
+private theorem sum_map_add (l : List Nat) (f g : Nat → α) :
+    (l.map (fun j => f j + g j)).sum = (l.map f).sum + (l.map g).sum := by
+  induction l with
+  | nil => simp
+  | cons x l ih => simp only [List.map_cons, List.sum_cons, ih]; ring
+
+/-- **no insertion is lost**: whatever the requested time — in the past, beyond the end of the queue (both clamped), or
+in range — an insertion raises the total waiting amount of its reaction by exactly its amount and leaves every other
+reaction's total alone. -/
+theorem totalPending_add (q : DQ α) (t a : α) (r r' : Nat) (hs : q.start < q.numCols) :
+    totalPending (q.add t r a) r' = totalPending q r' + if r' = r then a else 0 := by
+  have hn : 0 < q.numCols := by omega
+  unfold totalPending
+  have hnc : (q.add t r a).numCols = q.numCols := rfl
+  rw [hnc]
+  have h1 : (List.range q.numCols).map (fun j => (q.add t r a).pending j r')
+      = (List.range q.numCols).map (fun j => q.pending j r' + (if j = q.slotOf t then (if r' = r then a else 0) else 0)) := by
+    apply List.map_congr_left
+    intro j hj
+    rw [pending_add q t a r r' j hs (List.mem_range.mp hj)]
+    by_cases h1 : j = q.slotOf t <;> by_cases h2 : r' = r <;> simp [h1, h2]
+  rw [h1, sum_map_add, sum_indicator q.numCols (q.slotOf t) _ (slotOf_lt q t hn)]
+
+/-- **a read-and-advance removes exactly what it returns**: the total waiting amount of a reaction after the step is the
+total before minus the amount in the earliest slot (the amount the read delivered). -/
+theorem totalPending_advance (q : DQ α) (r : Nat) (hs : q.start < q.numCols) :
+    totalPending q.advance r + q.pending 0 r = totalPending q r := by
+  have hn : 0 < q.numCols := by omega
+  unfold totalPending
+  have hnc : q.advance.numCols = q.numCols := rfl
+  rw [hnc]
+  obtain ⟨n, hn'⟩ : ∃ n, q.numCols = n + 1 := ⟨q.numCols - 1, by omega⟩
+  rw [hn']
+  have hA : (List.range (n + 1)).map (fun j => q.advance.pending j r)
+      = (List.range n).map (fun j => q.pending (j + 1) r) ++ [0] := by
+    rw [List.range_succ, List.map_append]
+    congr 1
+    · apply List.map_congr_left
+      intro j hj
+      exact pending_advance q j r hs (by have := List.mem_range.mp hj; omega)
+    · have := pending_advance_last q r hs
+      rw [hn'] at this
+      simpa using this
+  rw [hA, List.range_succ_eq_map, List.map_cons, List.sum_cons, List.map_map, List.sum_append]
+  simp only [List.sum_cons, List.sum_nil, Function.comp_def, Nat.succ_eq_add_one]
+  ring
+
 /-! ### Copy and binomial partition -/
 
 /-- **re-basing the clock keeps the queue's contents in place**: `set_current_time` (which every delay simulation calls
